@@ -16,7 +16,7 @@ import socket as _socket
 
 from . import fakenet, reqwire
 
-CONNECT_KINDS = {"refused", "ctimeout", "gaierror", "cbase"}
+CONNECT_KINDS = {"refused", "ctimeout", "gaierror", "cbase", "tlsfail", "connect_refused"}
 SEND_KINDS = {"epipe", "sreset", "sother", "sbase"}
 RECV_KINDS = {"rtimeout", "rreset", "eof", "garbage", "short_eof", "short_timeout", "rbase", "rssl"}
 
@@ -46,6 +46,7 @@ class ScriptServer(fakenet.Endpoint):
         self.clock = clock
         self.serial = 0
         self.parse_errors = []
+        self.connects_seen: list = []
 
     # ---- script
     def _peek(self):
@@ -70,7 +71,7 @@ class ScriptServer(fakenet.Endpoint):
 
     def on_connect(self, sock, sa):
         o = self._peek()
-        if o is not None and o["o"] in CONNECT_KINDS and o["o"] != "gaierror":
+        if o is not None and o["o"] in ("refused", "ctimeout", "cbase"):
             self._take()
             self.attempts.append({"sid": sock.sid, "outcome": o, "msg": None, "phase": "connect", "host": sa[0], "port": sa[1]})
             if o["o"] == "refused":
@@ -85,8 +86,48 @@ class ScriptServer(fakenet.Endpoint):
         sock.state["done"] = 0
 
     # ---- send / request arrival
+    def _transport(self, sock, data):
+        """Null-TLS hello records and CONNECT requests are answered here (transport setup, not attempts).
+        Returns True when `data` was consumed by the transport layer."""
+        from . import nulltls
+
+        st = sock.state
+        if data.startswith(nulltls.HELLO):
+            o = self._peek()
+            trusted = True
+            if o is not None and o["o"] == "tlsfail":
+                self._take()
+                self.attempts.append({"sid": sock.sid, "outcome": o, "msg": None, "phase": "tls", "host": sock.addr[0], "port": sock.addr[1]})
+                trusted = False
+            host = st.get("tunnel_host") or str(sock.addr[0])
+            ident = nulltls.Identity([("DNS", host.strip("[]").lower())], trusted=trusted, label="script")
+            st.setdefault("layers", []).append(data)
+            sock.tx += data
+            st["consumed"] = st.get("consumed", 0) + len(data)
+            st["skip"] = st.get("skip", 0) + len(data)
+            sock.rx.append(nulltls.CERT + b"%d\n" % ident.id)
+            return True
+        if data.startswith(b"CONNECT ") and st.get("cur") is None and not st.get("tunnel_host"):
+            sock.tx += data
+            st["consumed"] = st.get("consumed", 0) + len(data)
+            st["skip"] = st.get("skip", 0) + len(data)
+            self.connects_seen.append((sock.sid, data.split(b"\r\n")[0]))
+            o = self._peek()
+            if o is not None and o["o"] == "connect_refused":
+                self._take()
+                self.attempts.append({"sid": sock.sid, "outcome": o, "msg": None, "phase": "tunnel", "host": sock.addr[0], "port": sock.addr[1]})
+                sock.rx.append(b"HTTP/1.1 403 Forbidden\r\nContent-Length: 0\r\nConnection: close\r\n\r\n")
+                sock.rx.append(fakenet.EOF)
+                return True
+            st["tunnel_host"] = data.split(b" ")[1].rsplit(b":", 1)[0].decode("latin-1")
+            sock.rx.append(b"HTTP/1.1 200 Connection established\r\n\r\n")
+            return True
+        return False
+
     def on_send(self, sock, data):
         st = sock.state
+        if st.get("cur") is None and self._transport(sock, data):
+            return
         if st.get("cur") is None:
             o = self._take()
             if o["o"] in CONNECT_KINDS:  # script wanted a connect fault but the connection was reused
@@ -109,7 +150,7 @@ class ScriptServer(fakenet.Endpoint):
                     sock.rx.append(("exc", ConnectionResetError(errno.ECONNRESET, "Connection reset by peer")))
                 self._raise_send(o)
         sock.tx += data
-        msgs, left, err = reqwire.parse_stream(bytes(sock.tx))
+        msgs, left, err = reqwire.parse_stream(bytes(sock.tx[st.get("skip", 0) :]))
         while len(msgs) > st["done"]:
             msg = msgs[st["done"]]
             st["done"] += 1
